@@ -395,7 +395,7 @@ func c02Parser(c *Ctx, p *core.Prog, rel string, scope []string, typ, limitName 
 			big = len(s)
 		}
 	}
-	r.Floor("cycle-guarded", big, 30, "functions in the largest recursive component of the parser (before removing guards)")
+	r.Floor("cycle-guarded", big, 20, "functions in the largest recursive component of the parser (before removing guards)")
 	r.Extra("recursive_components_before_guards", len(all))
 	for _, cyc := range cycles {
 		r.Violate("cycle-guarded", cycleString(cyc), p.FnPos(cyc[0]), "recursion cycle without a depth guard: input nesting along this cycle grows the stack without bound; call sites: "+cycleSites(p, g, cyc))
